@@ -505,6 +505,7 @@ func runC01(e *Env) {
 	e.R.SetExtra("hook_hits", verifhook.AllHits())
 	c05.finish(e.R)
 	runC01AfterInterruption(e)
+	runNextToCancelled(e, lp, false)
 	for _, tr := range []string{"mock-c1", "quic-c1", "quic-c2"} {
 		e.R.Require(okByTransport[tr] >= e.Pick(5, 50), fmt.Sprintf("too few double successes on %s: %d", tr, okByTransport[tr]))
 	}
